@@ -162,3 +162,15 @@ T(["C07"], RDFS, "reverse_dfs", "    states_reaching_final = [state for state in
 T(["C03", "C02", "C13"], TAD, "PlayerOne.prune_paths", "_next_state for _next_state in self.next_states\n            if state_list[_next_state[NEXT_STATE_IDX]].reach_probability != 0]",
   "(action, target) for action, target in self.next_states\n            if state_list[target].reach_probability != 0]", "tuple unpacking in the survivor filter")
 T(["C16"], CR, "save_results_to_file", 'file.write(f"Message                 : {game[\'msg\']}\\n")', 'message = game["msg"]\n            file.write(f"Message                 : {message}\\n")', "value through a local")
+
+# ---- benign edits of other kinds ---------------------------------------------------------------------------------------------
+T(["C01", "C13", "C06", "C10"], TAD, "PlayerOne.value_iteration_reach", "            next_state_reach_prob = state_list[next_state_idx].reach_probability\n",
+  "            next_state_reach_prob = state_list[next_state_idx].reach_probability\n            logging.debug(f\"successor {next_state_idx}: {next_state_reach_prob}\")\n", "debug logging inside a kernel loop")
+T(["C01", "C02", "C13"], TAD, "PlayerTwo.value_iteration_reach", "def value_iteration_reach(self, state_list):", "def value_iteration_reach(self, state_list: list) -> float:", "type annotations on a kernel")
+T(["C02", "C05", "C06", "C09", "C10"], TAD, "StochasticGame.solve", '        logging.info("Initializing stochastic game ...")\n', '        logging.info("Initializing stochastic game ...")\n        logging.debug("number of states: %d", self.num_states)\n', "extra logging in solve()")
+T(["C09"], TAD, "StochasticGame.check_game", "if len(self.rewards) != self.num_states:", "if not len(self.rewards) == self.num_states:", "length guard written with not ==")
+T(["C07", "C01"], RDFS, "add_missing_states", "for state in range(number_of_states):\n        if state not in transition_dict:\n            transition_dict[state] = []", "for state in range(number_of_states):\n        transition_dict.setdefault(state, [])" if False else "for state in range(0, number_of_states):\n        if state not in transition_dict:\n            transition_dict[state] = []", "range(0, n)")
+T(["C12", "C16"], CR, "run_games", '            logging.info(f"Running example: {name}")\n', '            logging.info("Running example: %s", name)\n', "lazy logging arguments")
+T(["C03", "C02", "C14"], TAD, "ProbabilisticNode.prune_paths", "        if len(surviving_states) == len(self.next_states):\n            return\n", "        if len(surviving_states) >= len(self.next_states):\n            return\n" if False else "        if len(self.next_states) == len(surviving_states):\n            return\n", "operands of the length test exchanged")
+T(["C04", "C14", "C05"], TAD, "Solver.__init__", "self.floor = abs(math.floor(math.log(threshold, 10)))", "self.floor = abs(int(math.floor(math.log10(threshold))))", "log10 instead of log(x, 10)")
+T(["C15", "C11"], GEN, "check_input", 'if max_reward <= 0:', 'if max_reward < 1:', "integer guard `< 1` for `<= 0`")
